@@ -188,3 +188,10 @@ func Print(a ...interface{}) (int, error) {
 	}
 	return fmt.Fprint(os.Stderr, a...)
 }
+
+// Resets holds optional white-box reset functions registered by harness files
+// placed inside gmsm packages (see /verif/harness/inpkg).
+var Resets = map[string]func(){}
+
+// RegisterReset registers a named reset function.
+func RegisterReset(name string, f func()) { Resets[name] = f }
